@@ -272,6 +272,8 @@ def d_separations(
     :yields: True d-separation judgements
     """
     vertices = set(graph.nodes())
+    # the stop of powerset() is exclusive, but max_conditions is the longest set to investigate
+    stop = None if max_conditions is None else max_conditions + 1
     for a, b in tqdm(
         combinations(vertices, 2),
         disable=not verbose,
@@ -279,7 +281,7 @@ def d_separations(
         unit="pair",
         total=len(vertices) * (len(vertices) - 1) // 2,
     ):
-        for conditions in powerset(vertices - {a, b}, stop=max_conditions):
+        for conditions in powerset(vertices - {a, b}, stop=stop):
             judgement = are_d_separated(graph, a, b, conditions=conditions)
             if judgement.separated:
                 yield judgement
